@@ -167,7 +167,7 @@ def run(chk: Check, tier: str):
         machinery_failure(f"MC_Revision: {res.violated} violated by the specification itself")
     tlc.require_ok(res, "MC_Revision")
     chk.add_tlc("MC_Revision", res, "all add/remove sequences over 3 candidate conditionals")
-    scen = [gen_scenario(rng, tier) for _ in range(260 if tier == "quick" else 4000)]
+    scen = [gen_scenario(rng, tier) for _ in range(260 if tier == "quick" else 20000)]
     # pinned: the case recorded in known_findings.json (the scenario of unittests/test_c_revision_fixed_gamma.py)
     scen.append({"sig": ["a", "b"], "prior": [0, 0, 0, 0], "cands": [(M.V("a"), M.V("b")), (M.Not(M.V("a")), M.V("b"))],
                  "ops": [["add", 1, 0], ["add", 2, 1], ["compile"], ["crev", True, {}, {1: 2}, False]]})
